@@ -345,7 +345,8 @@ Definition do_filt_call (p : predspec) (x : option nat) (s : sare) (st : state) 
 
 (* argument of a direct call of a filter *)
 Inductive fcarg := ACur (* the exception being handled, or None *) | ANew (c : cls) (l : N) (* a new, unraised object *)
-                 | ANone | AObj (i : nat) (* an object created earlier *).
+                 | ANone | AObj (i : nat) (* an object created earlier *)
+                 | AStored (c : cls) (l : N) (* a new object that was raised and caught elsewhere: it has a traceback *).
 
 Inductive body :=
 | Noop
@@ -400,6 +401,7 @@ Fixpoint exec (b : body) (s : sare) (st : state) : sare * state * outcome :=
                        | ANew c m => let '(st1, i) := alloc (mkobj c [] (OSite m) None) st in (st1, Some i)
                        | ANone => (st, None)
                        | AObj i => (st, Some i)
+                       | AStored c m => let '(st1, i) := alloc (mkobj c [FPre] (OSite m) None) st in (st1, Some i)
                        end in
       match do_filt_call p x s st1 with
       | (st2, Some j) => (s, add_frame (FProg l) j st2, Raised j)
